@@ -7,7 +7,9 @@ import (
 	"os"
 	"path/filepath"
 	"sort"
+	"syscall"
 	"testing"
+	"time"
 
 	wt "github.com/hnakamur/whispertool"
 	"github.com/hnakamur/whispertool/cmd"
@@ -33,6 +35,9 @@ type C09Case struct {
 	Until     int64      `json:"until"`
 	ArchiveID int        `json:"archive_id"`
 	Self      bool       `json:"self,omitempty"` // compare the source base with itself
+	// Contended: real wall clock; another descriptor holds the destination's lock across a second
+	// boundary while diff runs (an exact copy must still compare clean)
+	Contended bool `json:"contended,omitempty"`
 }
 
 type diffLine struct {
@@ -136,7 +141,53 @@ func sameDiffLines(got, want []diffLine, amb map[[2]int64]bool, negate bool) str
 
 func ws2(dst, src float64) float64 { return dst - src }
 
+// runC09Contended: diff of a file with its exact copy while the copy's lock is held elsewhere for more
+// than a second of real time. Both sides must still be read at ONE clock value, so the result is clean.
+func runC09Contended(c C09Case, ev *Evid) (fs []Finding) {
+	dir := scratchDir()
+	defer os.RemoveAll(dir)
+	now := time.Now().Unix()
+	p := c.Pairs[0]
+	spec := FileSpec{L: p.Src.L, Fill: minI64(p.Src.L.Archives[0].Points, 50), FillBase: 1}
+	sp, dp := filepath.Join(dir, "src", p.Rel), filepath.Join(dir, "dest", p.Rel)
+	if err := buildFile(sp, spec, now); err != nil {
+		return []Finding{{Property: "C09", Key: "setup", Detail: err.Error()}}
+	}
+	b, _ := os.ReadFile(sp)
+	os.MkdirAll(filepath.Dir(dp), 0755)
+	os.WriteFile(dp, b, 0644)
+	held, release := make(chan struct{}), make(chan struct{})
+	go func() {
+		fd, err := syscall.Open(dp, syscall.O_RDONLY, 0)
+		if err == nil {
+			syscall.Flock(fd, syscall.LOCK_EX)
+		}
+		close(held)
+		time.Sleep(1300 * time.Millisecond)
+		if err == nil {
+			syscall.Close(fd)
+		}
+		close(release)
+	}()
+	<-held
+	dc := &cmd.DiffCommand{SrcBase: filepath.Join(dir, "src"), SrcRelPath: p.Rel, DestBase: filepath.Join(dir, "dest"), ArchiveID: c.ArchiveID, TextOut: filepath.Join(dir, "out.txt")}
+	var err error
+	pm := guard(func() { err = dc.Execute() })
+	<-release
+	if pm != "" {
+		return []Finding{{Property: "C09", Key: "diff-panic", Detail: "contended diff panicked: " + pm}}
+	}
+	if err != nil {
+		return []Finding{{Property: "C09", Key: "contended-copy-not-clean", Detail: fmt.Sprintf("diff of a file (%s) with its exact copy, the copy's lock being held by another descriptor for 1.3 s: result %v\n%s", p.Src.L, err, tail(readText(filepath.Join(dir, "out.txt")), 400))}}
+	}
+	ev.Count(HashJSON(c)^uint64(now), true, "lock-contended-exact-copy")
+	return nil
+}
+
 func runC09(c C09Case, ev *Evid) (fs []Finding) {
+	if c.Contended {
+		return runC09Contended(c, ev)
+	}
 	add := func(key, format string, args ...interface{}) {
 		fs = append(fs, Finding{Property: "C09", Key: key, Detail: fmt.Sprintf(format, args...)})
 	}
@@ -450,9 +501,12 @@ func genDiffPair(t *rapid.T, l Layout, now int64, rel string, glob bool) DiffPai
 	case kind <= 8: // unrelated content, same layout
 		d := FileSpec{L: l, Writes: genWrites(t, l, now, valGeneral, 10)}
 		p.Dest = &d
-	case kind == 9: // different layout
+	case kind == 9: // different layout: unrelated, or only a longer last archive (invisible in narrow windows)
 		l2 := genCLILayout(t)
-		d := FileSpec{L: l2}
+		if rapid.Bool().Draw(t, "subtle") {
+			l2 = subtleLayoutVariant(l)
+		}
+		d := FileSpec{L: l2, Writes: genWrites(t, l2, now, valGeneral, 10)}
 		p.Dest = &d
 	case kind == 10: // destination missing
 	default: // source missing (single-file mode only)
@@ -507,10 +561,19 @@ func genC09(t *rapid.T) C09Case {
 
 func TestC09(t *testing.T) {
 	RunProperty(t, Property[C09Case]{
-		ID: "C09",
-		Rule: "rapid-generated diff invocations at a controlled clock: destination = exact copy, copy with 1-4 perturbations (last-bit change, NaN-vs-value, sign flip / -0, new value, extra slot in any archive), unrelated content, different layout, missing; source missing; self-comparison; single file (optionally under another name) or glob over 2-4 files; windows and archive selection as in C08. Oracle: E = slots of the selected archives' windows whose values differ (two NaNs equal; +0/-0 slots allowed but not required), from library fetches at the same clock; verdict 'diff found' iff E non-empty or a side missing; the listed lines (archive, time, srcVal, destVal, destMinusSrc parsed back bit-exactly) equal E; swapped sides give the same verdict and mirrored lines with negated difference; unequal layouts => another error; glob: one header record per matched file and OR of the verdicts. Non-trivial: a NaN-vs-value or last-bit difference in E, or a glob run with both clean and differing files. Distinct = hash of the case.",
+		NoteCases:   true,
+		ID:          "C09",
+		Rule:        "rapid-generated diff invocations at a controlled clock: destination = exact copy, copy with 1-4 perturbations (last-bit change, NaN-vs-value, sign flip / -0, new value, extra slot in any archive), unrelated content, different layout, missing; source missing; self-comparison; single file (optionally under another name) or glob over 2-4 files; windows and archive selection as in C08. Oracle: E = slots of the selected archives' windows whose values differ (two NaNs equal; +0/-0 slots allowed but not required), from library fetches at the same clock; verdict 'diff found' iff E non-empty or a side missing; the listed lines (archive, time, srcVal, destVal, destMinusSrc parsed back bit-exactly) equal E; swapped sides give the same verdict and mirrored lines with negated difference; unequal layouts => another error; glob: one header record per matched file and OR of the verdicts. Two fixed cases run on the real clock: diff of a file with its exact copy while the copy's lock is held by another descriptor for 1.3 s (both sides must be read at one clock value). Non-trivial: a NaN-vs-value or last-bit difference in E, or a glob run with both clean and differing files. Distinct = hash of the case.",
 		Assumptions: []string{"Z4: slots differing only in the sign of zero are neither required nor forbidden in the listing", "patterns that match nothing are C12's subject"},
 		Gen:         genC09,
 		Run:         runC09,
+		Fixed: func() []C09Case {
+			l1 := Layout{Archives: []Arch{{1, 60}, {60, 60}}, Method: 1, XFF: 0.5}
+			l2 := Layout{Archives: []Arch{{1, 30}}, Method: 2}
+			return []C09Case{
+				{Contended: true, ArchiveID: -1, Pairs: []DiffPair{{Rel: "a.wsp", Src: &FileSpec{L: l1}}}},
+				{Contended: true, ArchiveID: 0, Pairs: []DiffPair{{Rel: "m1/x.wsp", Src: &FileSpec{L: l2}}}},
+			}
+		},
 	})
 }
